@@ -230,6 +230,59 @@ def c09_variables(d: int, t: int, depth: int, topdepth: int) -> bool:
     return ok
 
 
+EXPORT_CLASSES = [
+    ("class Plain { Plain(); void serialize() const; };", "gt::Plain"),
+    ("template<A = {int}, B = {double, gt::Plain}> class Pair { Pair(); void serialize() const; };", None),
+    ("template<A = {gt::Plain}> class One { One(); void serializable() const; };", None),
+    ("template<A = {int}, B = {std::vector<double>}, C = {string}> class Tri { Tri(); void serialize() const; };", None),
+]
+
+
+def c09_exports(mask: int, nsdepth: int) -> bool:
+    """
+    With serialization enabled: the BOOST_CLASS_EXPORT block of the translation unit — every `typedef T name;`
+    names exactly one identifier, every BOOST_CLASS_EXPORT(x) argument is a single identifier or a qualified
+    class name without commas, each exported name is declared; brackets balance.
+    pre: 1 <= mask < 16 and 0 <= nsdepth <= 2
+    post: _
+    """
+    mask, nsdepth = pick(mask, 1, 16), pick(nsdepth, 0, 3)
+    with concrete():
+        path = ("gt", "inner")[:max(1, nsdepth)]
+        decls = " ".join(c for i, (c, _q) in enumerate(EXPORT_CLASSES) if mask >> i & 1)
+        if not (mask & 1):
+            decls = "class Plain { Plain(); }; " + decls
+        text = "namespace gt { %s%s%s }" % ("namespace inner { " if nsdepth == 2 else "", decls.replace("gt::Plain", "::".join(path) + "::Plain") if nsdepth == 2 else decls, " }" if nsdepth == 2 else "")
+        out = pipe.pybind(text, boost=True)
+        head = out.split("//BEGIN-WRAPPED")[0].split("\nvoid mod(")[0]
+        problems = []
+        if not readers.balanced(head):
+            problems.append("unbalanced text before the module body")
+        idre = r"[A-Za-z_]\w*"
+        typedefs = {}
+        for line in head.split("\n"):
+            line = line.strip()
+            if line.startswith("typedef "):
+                m = re.match(r"typedef (.+) (%s);$" % idre, line)
+                if not m or not readers.balanced(m.group(1)) or m.group(1).count("<") != m.group(1).count(">"):
+                    problems.append("ill-formed typedef: %r" % line)
+                else:
+                    typedefs[m.group(2)] = m.group(1)
+            elif line.startswith("BOOST_CLASS_EXPORT"):
+                m = re.match(r"BOOST_CLASS_EXPORT\((%s(?:::%s)*(?:<[^,()]*>)?)\)$" % (idre, idre), line)
+                if not m:
+                    problems.append("ill-formed export: %r" % line)
+                elif "::" not in m.group(1) and "<" not in m.group(1) and m.group(1) not in typedefs and m.group(1) != "Plain":
+                    problems.append("export of an undeclared name: %r" % line)
+        nexp = len(re.findall(r"^BOOST_CLASS_EXPORT", head, re.M))
+        want = sum(n for i, n in enumerate((1, 2, 1, 1)) if mask >> i & 1)
+        if nexp != want:
+            problems.append("%d classes exported, %d serializable class instantiations declared" % (nexp, want))
+        ok = not problems or _fail(text=text, problems=problems, head=head[-600:])
+    reached({"mask": mask, "nsdepth": nsdepth})
+    return ok
+
+
 def conds(tier):
     q = tier == "quick"
     t = (lambda x, y: x) if q else (lambda x, y: y)
@@ -240,6 +293,8 @@ def conds(tier):
                 bounds="27 namespace-name combinations x 7 top-namespace choices x re-opened namespace"),
         xh.Cond(M, "c09_callables", t(600, 3000), kind=sb, path_timeout=90, examples=["role=1, n=2, k=1, t0=7, r=5, flavour=1", "role=4, n=3, k=3, t0=2, r=3, flavour=2"],
                 bounds="5 roles x 0-3 args x defaults x %d arg types x 3 template flavours%s" % (c04.NPOOL, " x all return shapes" if not q else "")),
+        xh.Cond(M, "c09_exports", t(200, 600), kind=sb, examples=["mask=15, nsdepth=1", "mask=2, nsdepth=2", "mask=9, nsdepth=0"],
+                bounds="15 subsets of 4 serializable classes (plain, 2- and 3-parameter templates, nested template argument) x namespace depth"),
         xh.Cond(M, "c09_variables", t(300, 900), kind=sb, examples=["d=1, t=0, depth=1, topdepth=0", "d=3, t=2, depth=3, topdepth=2", "d=0, t=4, depth=2, topdepth=1"],
                 bounds="%d initialiser shapes x %d types x namespace depth 0-3 x top-namespace depth" % (len(VAR_DEFAULTS), len(VAR_TYPES))),
     ]
